@@ -442,6 +442,23 @@ func (r *RecReader) Read(p []byte) (int, error) {
 	return n, nil
 }
 
+// StreamSrc is a seeded byte *stream*: the bytes served do not depend on how the reads are chunked (RNG.Fill draws whole
+// 64-bit words per call and is therefore chunking-dependent).
+func StreamSrc(seed uint64) func([]byte) {
+	r := NewRNG(seed)
+	var buf []byte
+	return func(p []byte) {
+		for i := range p {
+			if len(buf) == 0 {
+				v := r.U64()
+				buf = []byte{byte(v), byte(v >> 8), byte(v >> 16), byte(v >> 24), byte(v >> 32), byte(v >> 40), byte(v >> 48), byte(v >> 56)}
+			}
+			p[i] = buf[0]
+			buf = buf[1:]
+		}
+	}
+}
+
 // ConstSrc fills with a constant byte.
 func ConstSrc(b byte) func([]byte) {
 	return func(p []byte) {
